@@ -15,6 +15,7 @@ func init() {
 			// a violation in a later fragment must surface from Discard as well
 			readerDiscardRules(c, "C05")
 			readerReadRules(c, "C05")
+			protocolErrorKindRules(c, "C05")
 		},
 	})
 }
